@@ -761,7 +761,7 @@ type c16GInst struct {
 type c16GState struct {
 	live  []c16GInst // what the caller believes is live (handles it would use)
 	next  int
-	quirk bool // some reload got as far as the old instance's OnShutdown callbacks and one of those failed
+	quirk bool // some reload got as far as the old instance's OnShutdown callbacks and one of those failed (class of F-C16-1)
 }
 
 func c16AnyFail(l []c16Cb) bool {
@@ -852,8 +852,8 @@ func (g *c16GState) apply(o c16Op) {
 			return
 		}
 		if c16AnyFail(old.cfg.Shutdown) {
-			g.quirk = true // Restart reports an error: the caller keeps using the old handle
-			return
+			// the class of the repaired finding F-C16-1: the error is logged, the reload succeeds
+			g.quirk = true
 		}
 		g.remove(o.H)
 		g.live = append(g.live, c16GInst{id, o.Cfg})
@@ -1234,7 +1234,8 @@ func c16PickStage(r *Rand, quirkOK bool) string {
 		return "finalcb"
 	}
 	// an OnShutdown callback that fails: when !quirkOK the history generator never reloads such an
-	// instance (that is the class of the known finding), but it does stop it, signal it, etc.
+	// instance (the class of the repaired finding F-C16-1), but it does stop it, signal it, etc.;
+	// every generator now runs with quirkOK
 	_ = quirkOK
 	return "shutdowncb"
 }
@@ -1412,7 +1413,7 @@ func c16GenChild(r *Rand, k int) *c16In {
 	gated := len(sigs) > 1 && (k/len(c16SigSeqs))%3 != 2
 	// a history that leaves at least one live instance with shutdown callbacks
 	for {
-		ops := c16GenHistory(r, 4, false)
+		ops := c16GenHistory(r, 4, true)
 		g := &c16GState{}
 		bad := false
 		for _, o := range ops {
@@ -1421,7 +1422,7 @@ func c16GenChild(r *Rand, k int) *c16In {
 			}
 			g.apply(o)
 		}
-		if bad || len(g.live) == 0 || g.quirk {
+		if bad || len(g.live) == 0 {
 			continue
 		}
 		ncb := 0
@@ -1441,17 +1442,13 @@ func c16Gen(r *Rand, tier string) []interface{} {
 		nh, nq, nc, maxOps = 3000, 60, 240, 14
 	}
 	var out []interface{}
-	for _, s := range c16Scenarios(r, false) {
+	// reloads of an instance whose OnShutdown callbacks fail (the class of the repaired finding
+	// F-C16-1) are part of every stream
+	for _, s := range c16Scenarios(r, true) {
 		out = append(out, s)
 	}
 	for i := 0; i < nh; i++ {
-		out = append(out, &c16In{Kind: "hist", Ops: c16GenHistory(r, maxOps, false)})
-	}
-	// the class of the known quirk (old OnShutdown error during a reload) is generated apart
-	for _, s := range c16Scenarios(r, true) {
-		if strings.HasSuffix(s.Note, "shutdowncb") {
-			out = append(out, s)
-		}
+		out = append(out, &c16In{Kind: "hist", Ops: c16GenHistory(r, maxOps, true)})
 	}
 	for i := 0; i < nq; i++ {
 		out = append(out, &c16In{Kind: "hist", Ops: c16GenHistory(r, maxOps, true)})
